@@ -21,6 +21,7 @@ const (
 	vpSecDone
 	vpSFCleanup
 	vpWaitAfterSend
+	vpSecWritten
 )
 
 // exported aliases for harness code living outside this package
@@ -37,6 +38,7 @@ const (
 	VPSecDone            = vpSecDone
 	VPSFCleanup          = vpSFCleanup
 	VPWaitAfterSend      = vpWaitAfterSend
+	VPSecWritten         = vpSecWritten
 )
 
 var verifHook atomic.Pointer[func(id int)]
